@@ -443,6 +443,12 @@ func c03Find(c *Ctx, cs0 *C03Case, out *CaseOut, wantSig string) []c03Fail {
 			if res.Panic == "" {
 				lastOK, lastEP, lastRes, lastCase = si, ep, res, nil
 			}
+			if strings.HasPrefix(res.Panic, "simrt: deadlock") {
+				// the reference, computed in this same process, meets the same held lock: judged on its own
+				if add("render-independent", fmt.Sprintf("step %d: %s of template %d %q with env %d can never finish: it waits for a lock that an EARLIER call of this process left held, and no other goroutine exists to release it", si, epNames[ep], st.T, clip(srcs[st.T]), st.B), si) {
+					return fails
+				}
+			}
 			if res.Key() != want.Key() {
 				if add("render-independent", fmt.Sprintf("step %d: %s of template %d %q with env %d after %d earlier step(s) gives %s; alone on a fresh engine with equal bindings it gives %s", si, epNames[ep], st.T, clip(srcs[st.T]), st.B, si, clip(res.Key()), clip(want.Key())), si) {
 					return fails
